@@ -65,6 +65,12 @@ fn gather(ctx: &WorkerCtx, p: &Plan, with_w: bool) -> Vec<(u64, &'static str, Ve
             work.push((b1 + i, "S", c.to_vec()));
         }
     });
+    let bi = base;
+    base += spaces::space_i(if p.m_full { 4 } else { 3 }, &mut |i, c| {
+        if ctx.owns(bi + i) {
+            work.push((bi + i, "I", c.to_vec()));
+        }
+    });
     if with_w {
         let b2 = base;
         base += spaces::space_w(p.m_full, &mut |i, c| {
